@@ -272,6 +272,8 @@ class World:
         out.w(self.cfg.get('root_text', ''))
         if 'type_urls' in self.cfg:
             self._emit_type_urls(out)
+        if self.cfg.get('wire_compat') and not reach:
+            self._emit_wire_compat(out)
         # module tree
         tree = {}
         for m in mods:
@@ -440,6 +442,75 @@ class World:
                   f'{{ reveal_strlit({lit}); reveal_strlit("/"); reveal_strlit({rust_str(pkg)}); reveal_strlit("."); reveal_strlit({rust_str(sname)}); }}\n')
         out.w('} // verus!\n}\n')
         self.generated_type_urls = n
+
+    def _emit_wire_compat(self, out):
+        """C20, wire compatibility: for every prost message (struct) and oneof (enum) of the bindings that an
+        independently generated binding crate also defines (same protobuf package, same Rust path), one ground
+        obligation per common field: the prost field attribute (wire type, cardinality, tag) is the same text.
+        Equal literals are the same term; different ones cannot be proved equal."""
+        wc = self.cfg['wire_compat']
+        lock = open(os.path.join(REPO, 'Cargo.lock')).read()
+        mv = re.search(r'name = "%s"\nversion = "([^"]+)"' % re.escape(wc['reference_crate']), lock)
+        if not mv:
+            raise Inconclusive(f'lost anchor: {wc["reference_crate"]} is not in Cargo.lock')
+        import glob as _glob
+        cargo_home = os.environ.get('CARGO_HOME', os.path.expanduser('~/.cargo'))
+        roots = _glob.glob(os.path.join(cargo_home, 'registry', 'src', '*', f'{wc["reference_crate"]}-{mv.group(1)}', wc['reference_subdir']))
+        if not roots:
+            raise Inconclusive(f'reference crate {wc["reference_crate"]}-{mv.group(1)} is not in the cargo registry')
+        root = roots[0]
+        ours = sorted(_glob.glob(os.path.join(REPO, wc['proto_dir'], '*.rs')))
+        refs = []
+        for f in ours:
+            pkg = os.path.basename(f)[:-3]
+            rf = os.path.join(root, *pkg.split('.')) + '.rs'
+            if os.path.exists(rf):
+                refs.append((pkg, f, rf))
+        if not refs:
+            raise Inconclusive('lost anchor: no protobuf package is shared with the reference crate')
+        idx = run_vx([f for _, f, _ in refs] + [rf for _, _, rf in refs])
+
+        def norm(a):
+            t = re.sub(r'\s+', ' ', a).strip()
+            t = re.sub(r'^#\[prost\((.*)\)\]$', r'\1', t)
+            t = re.sub(r'oneof = "[^"]*"', 'oneof', t)       # the Rust name of the oneof enum is not on the wire
+            return t
+
+        def table(file):
+            tab = {}
+            for it in idx[file]['items']:
+                if it['kind'] == 'struct' and it['fields'].get('style') == 'named':
+                    tab[it['path']] = {f['name'].replace('r#', ''): norm(a['text']) for f in it['fields']['fields'] for a in f['attrs'] if a['path'] == 'prost'}
+                elif it['kind'] == 'enum' and any('Oneof' in a['text'] for a in it['attrs'] if a['path'] == 'derive'):
+                    tab[it['path']] = {v['name']: norm(a['text']) for v in it['variants'] for a in v['attrs'] if a['path'] == 'prost'}
+            return tab
+
+        excl = wc.get('exclude', {})
+        lab0 = wc.get('label', 'C20')
+        out.w('\n// ---- generated: wire-compatibility obligations against ' + f'{wc["reference_crate"]}-{mv.group(1)}' + ' ----\n'
+              'pub mod wire_compat_obligations {\nuse vstd::prelude::*;\nverus! {\n')
+        n = nf = nx = 0
+        for pkg, f, rf in refs:
+            a, b = table(f), table(rf)
+            for path in sorted(set(a) & set(b)):
+                common = [k for k in a[path] if k in b[path]]
+                clauses = []
+                for k in common:
+                    key = f'/{pkg}.{path}.{k}'
+                    if key in excl:
+                        nx += 1
+                        continue
+                    clauses.append(f'        {rust_str(a[path][k])}@ == {rust_str(b[path][k])}@,   // {k}')
+                if not clauses:
+                    continue
+                n += 1
+                nf += len(clauses)
+                nm = re.sub(r'\W', '_', f'{pkg}_{path}')
+                out.w(f'\n// [{lab0}.wire-{pkg}.{path.replace("::", ".")}]\npub proof fn wire_{n}_{nm}()\n    ensures\n' + '\n'.join(clauses) + '\n{ }\n')
+        out.w('} // verus!\n}\n')
+        self.generated_wire = {'messages': n, 'fields': nf, 'excluded': nx, 'reference': f'{wc["reference_crate"]}-{mv.group(1)}'}
+        if n == 0:
+            raise Inconclusive('vacuous: no shared message was compared')
 
     def _lemma_twins(self, text):
         """vacuity twins for labelled lemmas: same parameters and `requires`, `ensures false`, empty body.
@@ -1161,6 +1232,7 @@ def assemble(world_name, features=(), outdir=None, force_stub=()):
     meta = {'world': world_name, 'features': sorted(features), 'fns': fmap_main, 'reach_fns': w2.fnmap,
             'degraded': w.degraded,
             'counters': counters, 'uncontracted': w.uncontracted, 'stubs': w.stubs, 'lemma_twins': w2.lemma_twins,
+            'generated': {'type_urls': getattr(w, 'generated_type_urls', None), 'wire_compat': getattr(w, 'generated_wire', None)},
             'unit_sha256': sha(main)}
     json.dump(meta, open(os.path.join(outdir, 'map.json'), 'w'), indent=1)
     return outdir, meta
